@@ -49,6 +49,15 @@ func optionalFrom(v any) (*Node, error) {
 	return nodeFrom(l[0], false)
 }
 
+func strsFrom(v any) []string {
+	var out []string
+	for _, x := range list(v) {
+		s, _ := x.(string)
+		out = append(out, s)
+	}
+	return out
+}
+
 func lvFrom(v any) (LV, error) {
 	m, ok := v.(map[string]any)
 	if !ok {
@@ -59,7 +68,7 @@ func lvFrom(v any) (LV, error) {
 		return LV{}, err
 	}
 	name, _ := m["n"].(string)
-	return LV{N: name, Idx: idx}, nil
+	return LV{N: name, Idx: idx, Q: strsFrom(m["q"])}, nil
 }
 
 func optsFrom(v any) ([]Opt, error) {
@@ -104,6 +113,12 @@ func nodeFrom(v any, expr bool) (*Node, error) {
 		n.Opts, err = optsFrom(m["opts"])
 	case "name":
 		n.Name, _ = m["n"].(string)
+		n.Q = strsFrom(m["q"])
+	case "use":
+		n.Name, _ = m["spec"].(string)
+		if as := list(m["as"]); len(as) == 1 {
+			n.As, _ = as[0].(string)
+		}
 	case "bad":
 		n.Name, _ = m["kind"].(string)
 	case "var":
@@ -111,6 +126,7 @@ func nodeFrom(v any, expr bool) (*Node, error) {
 			n.T = "varx"
 			n.Name, _ = m["n"].(string)
 			n.Explode, _ = m["explode"].(bool)
+			n.Q = strsFrom(m["q"])
 			return n, nil
 		}
 		fallthrough
@@ -130,6 +146,29 @@ func nodeFrom(v any, expr bool) (*Node, error) {
 		if t != "del" {
 			n.Rhs, err = nodesFrom(m["rhs"], true)
 		}
+	case "with":
+		for _, x := range list(m["assigns"]) {
+			am, ok := x.(map[string]any)
+			if !ok {
+				return nil, fmt.Errorf("bad with assignment")
+			}
+			a := &Node{T: "set", Lhs: []LV{}}
+			for _, l := range list(am["lhs"]) {
+				lv, err := lvFrom(l)
+				if err != nil {
+					return nil, err
+				}
+				a.Lhs = append(a.Lhs, lv)
+			}
+			if r, ok := am["rest"].(float64); ok {
+				a.Rest = int(r)
+			}
+			if a.Rhs, err = nodesFrom(am["rhs"], true); err != nil {
+				return nil, err
+			}
+			n.Assigns = append(n.Assigns, a)
+		}
+		n.Body, err = nodeFrom(m["body"], false)
 	case "fn":
 		n.Name, _ = m["name"].(string)
 		n.Lam, err = nodeFrom(m["lam"], true)
